@@ -17,6 +17,10 @@ UNPICKLABLE_LOCKS = {"threading.Lock", "threading.RLock", "threading.Condition",
                      "multiprocessing.Lock", "asyncio.Lock"}
 
 
+UNPICKLABLE_OBJECTS = {"types.MappingProxyType", "weakref.ref", "weakref.proxy", "weakref.WeakValueDictionary", "weakref.WeakKeyDictionary", "builtins.open", "builtins.iter", "builtins.memoryview",
+                       "mmap.mmap", "io.BufferedReader", "itertools.count", "itertools.cycle", "functools.lru_cache", "functools.cache", "contextvars.ContextVar", "threading.local", "socket.socket"}
+
+
 def run(chk, repo):
     g = CallGraph(repo)
     chk.explanation = (
@@ -260,6 +264,33 @@ def _t34(chk, repo, g):
         if v is not None and (isinstance(v, ast.Lambda) or any(isinstance(x, ast.Lambda) for x in ast.walk(v))):
             stored_bad.append(short(node, 50))
     chk.require(not stored_bad, "C19-T4", f"{xr.relpath}:LazilyIndexedWrapper.__init__", "no lambda/closure is stored on the wrapper", f"unpicklable members: {stored_bad}", key="wrapper:lambda")
+    # every attribute the two classes store on themselves, in any method: not an object pickle refuses (the tree is shipped to workers)
+    for m_, cname in ((repo.module("ceos_alos2.array"), "Array"), (xr, "LazilyIndexedWrapper")):
+        bad = []
+        for q, fi in m_.funcs.items():
+            if not q.startswith(cname + ".") or q.count(".") != 1:
+                continue
+            fl = Flow(fi)
+            for kind, root, target, node in effects.stores(repo, fi):
+                if kind != "attr_store" or root != "self":
+                    continue
+                v = getattr(node, "value", None)
+                if v is None:
+                    continue
+                v = fl.expand(v)
+                for x in ast.walk(v):
+                    why = None
+                    if isinstance(x, (ast.Lambda, ast.GeneratorExp)):
+                        why = "a lambda / generator"
+                    elif isinstance(x, ast.Call):
+                        r_ = repo.resolve_expr(fi, x.func) if isinstance(x.func, (ast.Name, ast.Attribute)) else None
+                        fq = r_.fq if r_ is not None and r_.kind == "external" else (f"builtins.{x.func.id}" if isinstance(x.func, ast.Name) and x.func.id in ("open", "iter", "memoryview") else None)
+                        if fq in UNPICKLABLE_LOCKS or fq in UNPICKLABLE_OBJECTS:
+                            why = fq
+                    if why:
+                        bad.append(f"{q}: self.{target.attr} = ... {why}")
+        chk.require(not bad, "C19-T4", f"{m_.relpath}:{cname}", f"nothing {cname} stores on itself is an object pickle refuses",
+                    f"{bad[:2]}: pickle (and deepcopy) of the tree raises TypeError, no copy of the tree can be made or loaded from", key=f"{cname}:unpicklable-member")
 
 
 
